@@ -180,6 +180,11 @@ def schemas(draw, features: FrozenSet[str] = BASE_FEATURES, sizes: Sizes = QUICK
     # enums -----------------------------------------------------------------------------
     ekeys = draw(st.lists(st.tuples(st.sampled_from(SCHEMAS), names(F)), max_size=sizes.enums,
                           unique=True))
+    if len(ekeys) >= 2 and draw(st.integers(0, 3)) == 0:
+        s0, n0 = ekeys[0]
+        s1 = ekeys[1][0] if ekeys[1][0] != s0 else next(x for x in SCHEMAS if x != s0)
+        if (s1, n0) not in ekeys:
+            ekeys[1] = (s1, n0)
     enums = []
     for sch, nm in ekeys:
         inames = draw(st.lists(names(F, bare_risky=False), min_size=1, max_size=sizes.items, unique=True))
@@ -202,6 +207,12 @@ def schemas(draw, features: FrozenSet[str] = BASE_FEATURES, sizes: Sizes = QUICK
     # tables ----------------------------------------------------------------------------
     tkeys = draw(st.lists(st.tuples(st.sampled_from(SCHEMAS), names(F)), min_size=min_tables,
                           max_size=sizes.tables, unique=True))
+    # the same table name in two schemas is where name-only shortcuts break: make it common
+    if len(tkeys) >= 2 and draw(st.integers(0, 3)) == 0:
+        s0, n0 = tkeys[0]
+        s1 = tkeys[1][0] if tkeys[1][0] != s0 else next(x for x in SCHEMAS if x != s0)
+        if (s1, n0) not in tkeys:
+            tkeys[1] = (s1, n0)
     tnames = {n for _, n in tkeys}
     used_alias = set()
     tables: List[ATable] = []
